@@ -32,8 +32,10 @@ func runC10(c *Ctx) {
 	c04R3(c, p, "C10.R3.toggles")
 	c04R4(c, p, "C10.R3.scratch-vs-incremental")
 	c02R2(c, p, "C10.R3.ep-convention")
+	c02R7(c, p, "C10.R3.ep-capturable")
 	c02R5(c, p, "C10.R3.uci-history")
 	boardCopyRule(c, p, "C10.R3.no-shared-history")
+	c10R4(c, p)
 }
 
 func isLenOfHashes(v ssa.Value) bool {
@@ -375,6 +377,9 @@ func c10R1R2(c *Ctx, p *Prog) {
 
 func init() {
 	addMutants(
+		Mutant{Name: "C10.R4-history-reset-on-zero-clock", Prop: "C10", File: "uci/uci.go", Quick: true,
+			Old: "\t\tb.MakeMove(m)\n", New: "\t\tb.MakeMove(m)\n\t\tif b.FiftyCnt == 0 {\n\t\t\tb.ResetHash()\n\t\t}\n",
+			Expect: "C10.R4/uci.(*Driver).applyMoves#history-reset"},
 		Mutant{Name: "C10.R1-stride-four", Prop: "C10", File: "board/board.go", Quick: true,
 			Old: "for ix := len(b.hashes) - 5; ix >= 0; ix -= 2 {", New: "for ix := len(b.hashes) - 5; ix >= 0; ix -= 4 {",
 			Expect: "C10.R1/Threefold#coverage"},
@@ -406,4 +411,76 @@ func init() {
 			Old: "\tb := d.board\n\tfor _, ms := range moves {", New: "\tcp := *d.board\n\tb := &cp\n\tfor _, ms := range moves {",
 			Expect: "C10.R3.uci-history/applyMoves#persistent-board"},
 	)
+}
+
+// c10R4: the repetition count is a function of the whole history since the position was set up.
+// The history may be emptied only together with loading a new position: every call of a function
+// that truncates Board.hashes to a constant length (today: ResetHash) is dominated, in its caller,
+// by a ParseFEN of the same board (or the caller is itself only such a loader). A reset anywhere
+// else (e.g. "nothing before an irreversible move can repeat") forgets occurrences as soon as its
+// trigger misfires.
+func c10R4(c *Ctx, p *Prog) {
+	const rule = "C10.R4"
+	// resetters: functions storing a constant-length re-slice or a fresh slice into Board.hashes
+	resetters := map[*ssa.Function]bool{}
+	for _, fn := range p.OwnFuncs() {
+		if relPkg(fnPkgPath(fn)) != "board" {
+			continue
+		}
+		for _, st := range fieldStores(fn, "Board.hashes") {
+			v := stripConv(st.Val)
+			switch x := v.(type) {
+			case *ssa.MakeSlice:
+				resetters[fn] = true
+			case *ssa.Slice:
+				if x.High != nil {
+					if _, isc := constOf(x.High); isc {
+						resetters[fn] = true
+					}
+				}
+			}
+		}
+	}
+	if len(resetters) == 0 {
+		c.Undec(rule, "history-reset#resetters", 0, "no function that empties the hash history found")
+		return
+	}
+	n := 0
+	for _, caller := range p.OwnFuncs() {
+		if resetters[caller] {
+			continue
+		}
+		ord := 0
+		allInstrs(caller, func(in ssa.Instruction) {
+			ci, ok := in.(ssa.CallInstruction)
+			if !ok || ci.Common().StaticCallee() == nil || !resetters[ci.Common().StaticCallee()] {
+				return
+			}
+			ord++
+			n++
+			key := fmt.Sprintf("%s#history-reset@%d", fnName(caller), ord)
+			recv := ci.Common().Args[0]
+			loaded := false
+			for _, pc := range callsIn(caller, "board.ParseFEN") {
+				if instrDominates(pc.(ssa.Instruction), in) && sameValue(pc.Common().Args[0], recv, 0) {
+					loaded = true
+				}
+			}
+			for _, pc := range callsIn(caller, "board.FromFEN") {
+				if instrDominates(pc.(ssa.Instruction), in) {
+					for v := range backSlice(recv, sliceOpts{}) {
+						if v == pc.Value() {
+							loaded = true
+						}
+					}
+				}
+			}
+			if loaded {
+				c.Ok(rule, key, in.Pos(), "the history is emptied right after a new position was loaded into the same board")
+			} else {
+				c.Fail(rule, key, in.Pos(), "the hash history is emptied although no new position was loaded: earlier occurrences of the positions still on the board are forgotten and the repetition count restarts")
+			}
+		})
+	}
+	c.Floor(rule, n, 1, "history resets")
 }
